@@ -346,5 +346,45 @@ MC_INIT
             mc::nontrivial();
         check_all(m, len, align, 0x5A, "aligned");
     });
+    // The value depends on the BYTES, not on the argument values: the same (pointer, length, seed) after the buffer
+    // was patched in place must give the CRC of the new contents.  Both calls and the store between them sit in one
+    // function compiled with optimisation, so a declaration that lets the compiler merge the calls shows here.
+    mc::add_check("recompute_after_patching_in_place", [] {
+        int len = 1 + mc::choose(24);
+        int pos = mc::choose(len);
+        int pat = mc::choose(3);
+        mc::describe("len=%d patched byte=%d pattern=%d", len, pos, pat);
+        mc::nontrivial();
+        uint8_t *buf = (uint8_t *)malloc(len), ref0[32], ref1[32];
+        for (int i = 0; i < len; i++)
+            ref0[i] = ref1[i] = buf[i] = pat == 0 ? 0x00 : pat == 1 ? (uint8_t)(i * 29 + 3) : 0xFF;
+        ref1[pos] ^= 0x5A;
+        mc::crash_context("C17.recompute.memory");
+        uint8_t a8 = igris_crc8(buf, (uint8_t)len, 0x3C), t8 = igris_crc8_table(buf, (uint8_t)len, 0x3C), a7 = igris_mmc_crc7(buf, (uint8_t)len);
+        uint16_t a16 = igris_crc16(buf, (uint16_t)len, 0x1D0F);
+        uint32_t a32 = igris_crc32(buf, (uint32_t)len, 0xFFFFFFFFu);
+        buf[pos] ^= 0x5A;
+        uint8_t b8 = igris_crc8(buf, (uint8_t)len, 0x3C), u8 = igris_crc8_table(buf, (uint8_t)len, 0x3C), b7 = igris_mmc_crc7(buf, (uint8_t)len);
+        uint16_t b16 = igris_crc16(buf, (uint16_t)len, 0x1D0F);
+        uint32_t b32 = igris_crc32(buf, (uint32_t)len, 0xFFFFFFFFu);
+        free(buf);
+        struct
+        {
+            const char *nm;
+            uint32_t first, second, want0, want1;
+        } t[] = {{"crc8", a8, b8, ref_dallas(ref0, len, 0x3C), ref_dallas(ref1, len, 0x3C)},
+                 {"crc8_table", t8, u8, ref_dallas(ref0, len, 0x3C), ref_dallas(ref1, len, 0x3C)},
+                 {"mmc_crc7", a7, b7, ref_crc7(ref0, len), ref_crc7(ref1, len)},
+                 {"crc16", a16, b16, ref_crc16(ref0, len, 0x1D0F), ref_crc16(ref1, len, 0x1D0F)},
+                 {"crc32", a32, b32, ref_crc32(ref0, len, 0xFFFFFFFFu), ref_crc32(ref1, len, 0xFFFFFFFFu)}};
+        for (auto &x : t)
+        {
+            if (x.first != x.want0)
+                mc::violation(mc::fmt("C17.%s.value", x.nm), "len=%d: first call %#x want %#x", len, x.first, x.want0);
+            if (x.second != x.want1)
+                mc::violation(mc::fmt("C17.%s.recompute_stale", x.nm), "len=%d: after patching byte %d in place the same call returned %#x, want %#x (first call %#x)",
+                              len, pos, x.second, x.want1, x.first);
+        }
+    });
 }
 MC_MAIN
